@@ -1,4 +1,263 @@
+// C16 — route table: `Routes::lookup` = gateway of the longest-prefix route among those not expired, and the
+// default-route helpers.  Spliced into src/iface/route.rs (private `storage` reachable).
+//
+// Pre-state: `Routes::new()` + <= 2 (= IFACE_MAX_ROUTE_COUNT in KI4/KI6) symbolic routes pushed through the public
+// `update` closure - every table a user can build.  Expiry convention of the code (kept by the reference, stated
+// here): a route with `expires_at = Some(t)` is live while `now <= t` (it is dropped when `now > t`), `None` = forever;
+// `preferred_until` does not take part in lookups.  Among several live matching routes of the same maximal prefix
+// length any of them is accepted (the code returns the last one).
 #[allow(dead_code, unused_imports, unused_variables, unused_mut)]
 mod v_iface_route {
     use super::*;
+    use crate::verif_common::*;
+
+    const T_MAX: i64 = 1i64 << 50; // microseconds
+
+    #[cfg(feature = "proto-ipv4")]
+    fn any_v4() -> IpAddress {
+        let o: [u8; 4] = kani::any();
+        IpAddress::Ipv4(Ipv4Address::from(o))
+    }
+    #[cfg(feature = "proto-ipv6")]
+    fn any_v6() -> IpAddress {
+        let o: [u8; 16] = kani::any();
+        IpAddress::Ipv6(Ipv6Address::from(o))
+    }
+    /// any address of an enabled IP version (not necessarily unicast)
+    fn any_addr() -> IpAddress {
+        #[cfg(all(feature = "proto-ipv4", feature = "proto-ipv6"))]
+        let a = if kani::any() { any_v4() } else { any_v6() };
+        #[cfg(all(feature = "proto-ipv4", not(feature = "proto-ipv6")))]
+        let a = any_v4();
+        #[cfg(all(not(feature = "proto-ipv4"), feature = "proto-ipv6"))]
+        let a = any_v6();
+        a
+    }
+    fn max_prefix(a: &IpAddress) -> u8 {
+        match a {
+            #[cfg(feature = "proto-ipv4")]
+            IpAddress::Ipv4(_) => 32,
+            #[cfg(feature = "proto-ipv6")]
+            IpAddress::Ipv6(_) => 128,
+        }
+    }
+    fn any_instant(lo: i64, hi: i64) -> Instant {
+        let t: i64 = kani::any();
+        kani::assume(t >= lo && t <= hi);
+        Instant::from_micros(t)
+    }
+    fn any_opt_instant() -> Option<Instant> {
+        if kani::any() { Some(any_instant(0, T_MAX)) } else { None }
+    }
+    fn any_route() -> Route {
+        let net = any_addr();
+        let pl: u8 = kani::any();
+        kani::assume(pl <= max_prefix(&net));
+        let via = any_addr();
+        kani::assume(via.is_unicast());
+        Route { cidr: IpCidr::new(net, pl), via_router: via, preferred_until: any_opt_instant(), expires_at: any_opt_instant() }
+    }
+
+    /// independent reference for "addr lies in net/pl": the top `pl` bits agree
+    fn ref_contains(cidr: &IpCidr, a: &IpAddress) -> bool {
+        let pl = cidr.prefix_len() as u32;
+        match (cidr.address(), a) {
+            #[cfg(feature = "proto-ipv4")]
+            (IpAddress::Ipv4(n), IpAddress::Ipv4(a)) => {
+                let x = u32::from_be_bytes(n.octets()) ^ u32::from_be_bytes(a.octets());
+                pl == 0 || (x >> (32 - pl)) == 0
+            }
+            #[cfg(feature = "proto-ipv6")]
+            (IpAddress::Ipv6(n), IpAddress::Ipv6(a)) => {
+                let x = u128::from_be_bytes(n.octets()) ^ u128::from_be_bytes(a.octets());
+                pl == 0 || (x >> (128 - pl)) == 0
+            }
+            #[allow(unreachable_patterns)]
+            _ => false,
+        }
+    }
+    fn live(r: &Route, now: Instant) -> bool {
+        match r.expires_at {
+            Some(t) => now <= t,
+            None => true,
+        }
+    }
+    fn usable(r: &Route, a: &IpAddress, now: Instant) -> bool {
+        live(r, now) && ref_contains(&r.cidr, a)
+    }
+
+    /// `got` is what the reference allows for the table [r0, r1][..n]
+    fn check_lookup(got: Option<IpAddress>, n: usize, r0: &Route, r1: &Route, a: &IpAddress, now: Instant) {
+        let u0 = n >= 1 && usable(r0, a, now);
+        let u1 = n >= 2 && usable(r1, a, now);
+        match got {
+            None => assert!(!u0 && !u1, "prop:c16_route_found_whenever_a_live_route_matches"),
+            Some(gw) => {
+                assert!(u0 || u1, "prop:c16_no_gateway_without_a_live_matching_route");
+                let best0 = u0 && (!u1 || r0.cidr.prefix_len() >= r1.cidr.prefix_len());
+                let best1 = u1 && (!u0 || r1.cidr.prefix_len() >= r0.cidr.prefix_len());
+                assert!((best0 && gw == r0.via_router) || (best1 && gw == r1.via_router), "prop:c16_gateway_of_longest_prefix_live_route");
+            }
+        }
+    }
+
+    // @harness props=C16 cfg=KI4,KI6 tier=q to=600 mem=6 unwind=KI4:8,KI6:18 opts=nomem covers=4 funcs=route::Routes::lookup;route::Routes::update;IpCidr::contains_addr bounds=table_of_0..=2_routes_(IFACE_MAX_ROUTE_COUNT=2);_any_network_address_and_any_prefix_length_0..=32_(0..=128_for_IPv6),_any_unicast_gateway,_any_expires_at/preferred_until_or_none;_any_unicast_destination;_any_instant_(microseconds)
+    #[kani::proof]
+    pub(crate) fn route_longest_prefix() {
+        let now = any_instant(0, T_MAX);
+        let n = any_le(2);
+        let r0 = any_route();
+        let r1 = any_route();
+        let mut routes = Routes::new();
+        routes.update(|v| {
+            if n >= 1 {
+                v.push(r0).unwrap();
+            }
+            if n >= 2 {
+                v.push(r1).unwrap();
+            }
+        });
+        let a = any_addr();
+        kani::assume(a.is_unicast());
+        let got = routes.lookup(&a, now);
+        check_lookup(got, n, &r0, &r1, &a, now);
+        assert!(routes.storage.len() == n, "prop:c16_lookup_is_pure");
+        let u0 = n >= 1 && usable(&r0, &a, now);
+        let u1 = n >= 2 && usable(&r1, &a, now);
+        kani::cover!(u0 && u1 && r0.cidr.prefix_len() > r1.cidr.prefix_len() && r1.cidr.prefix_len() > 0, "first route more specific than second");
+        kani::cover!(u0 && u1 && r0.cidr.prefix_len() < r1.cidr.prefix_len(), "second route more specific");
+        kani::cover!(n == 2 && !live(&r1, now) && ref_contains(&r1.cidr, &a) && r1.cidr.prefix_len() > r0.cidr.prefix_len() && got.is_some(), "more specific route expired, fell back");
+        kani::cover!(n == 2 && got.is_none(), "two routes, none usable");
+    }
+
+    fn is_default(r: &Route) -> bool {
+        #[cfg(feature = "proto-ipv4")]
+        if r.is_ipv4_gateway() {
+            return true;
+        }
+        #[cfg(feature = "proto-ipv6")]
+        if r.is_ipv6_gateway() {
+            return true;
+        }
+        false
+    }
+    fn same_route(a: &Route, b: &Route) -> bool {
+        a.cidr == b.cidr && a.via_router == b.via_router && a.preferred_until == b.preferred_until && a.expires_at == b.expires_at
+    }
+
+    // @harness props=C16 cfg=KI4,KI6 tier=q to=600 mem=6 unwind=KI4:8,KI6:18 opts=nomem covers=4 funcs=route::Routes::add_default_ipv4_route;route::Routes::add_default_ipv6_route;route::Routes::remove_default_ipv4_route;route::Routes::remove_default_ipv6_route;route::Routes::get_default_ipv4_route;route::Routes::lookup bounds=table_of_0..=2_routes_with_at_most_one_default_route;_any_unicast_gateway;_any_unicast_destination
+    #[kani::proof]
+    pub(crate) fn route_default_gateway() {
+        let now = any_instant(0, T_MAX);
+        let n = any_le(2);
+        let r0 = any_route();
+        let r1 = any_route();
+        // stated pre-condition: at most one default route (what add_default_* maintains; `update` could push duplicates)
+        kani::assume(!(n == 2 && is_default(&r0) && is_default(&r1)));
+        let mut routes = Routes::new();
+        routes.update(|v| {
+            if n >= 1 {
+                v.push(r0).unwrap();
+            }
+            if n >= 2 {
+                v.push(r1).unwrap();
+            }
+        });
+        let d0 = n >= 1 && is_default(&r0);
+        let d1 = n >= 2 && is_default(&r1);
+        let gw = any_addr();
+        kani::assume(gw.is_unicast());
+        let res = match gw {
+            #[cfg(feature = "proto-ipv4")]
+            IpAddress::Ipv4(g) => routes.add_default_ipv4_route(g),
+            #[cfg(feature = "proto-ipv6")]
+            IpAddress::Ipv6(g) => routes.add_default_ipv6_route(g),
+        };
+        let a = any_addr();
+        kani::assume(a.is_unicast());
+        match res {
+            Err(RouteTableFull) => {
+                // only when there was no default to replace and no room; nothing changed
+                assert!(n == 2 && !d0 && !d1, "prop:c16_default_route_refused_only_when_full");
+                assert!(routes.storage.len() == 2 && same_route(&routes.storage[0], &r0) && same_route(&routes.storage[1], &r1), "prop:c16_refused_default_route_changes_nothing");
+            }
+            Ok(old) => {
+                match old {
+                    Some(o) => assert!((d0 && same_route(&o, &r0)) || (d1 && same_route(&o, &r1)), "prop:c16_returns_previous_default_route"),
+                    None => assert!(!d0 && !d1, "prop:c16_returns_previous_default_route"),
+                }
+                let had = d0 || d1;
+                assert!(routes.storage.len() == if had { n } else { n + 1 }, "prop:c16_default_route_replaced_not_duplicated");
+                // the new default is last, forever, via gw; the non-default routes are kept in order
+                let last = routes.storage[routes.storage.len() - 1];
+                assert!(is_default(&last) && last.via_router == gw && last.expires_at.is_none() && last.preferred_until.is_none(), "prop:c16_new_default_route_installed");
+                if n == 2 && d0 {
+                    assert!(same_route(&routes.storage[0], &r1), "prop:c16_other_routes_kept");
+                } else if n >= 1 && !d0 {
+                    assert!(same_route(&routes.storage[0], &r0), "prop:c16_other_routes_kept");
+                }
+                if n == 2 && !d0 && !d1 {
+                    assert!(false, "prop:c16_default_route_refused_only_when_full");
+                }
+                // lookups: a destination no other live route covers goes to the new gateway
+                let o0 = n >= 1 && !d0 && usable(&r0, &a, now);
+                let o1 = n >= 2 && !d1 && usable(&r1, &a, now);
+                let got = routes.lookup(&a, now);
+                if max_prefix(&a) == max_prefix(&gw) {
+                    assert!(got.is_some(), "prop:c16_route_found_whenever_a_live_route_matches");
+                    if !o0 && !o1 {
+                        assert!(got == Some(gw), "prop:c16_default_route_used_when_nothing_more_specific");
+                    }
+                    if o0 && r0.cidr.prefix_len() > 0 && !o1 {
+                        assert!(got == Some(r0.via_router), "prop:c16_gateway_of_longest_prefix_live_route");
+                    }
+                }
+                // at most one default afterwards (inv)
+                let k = any_lt(2);
+                if k + 1 < routes.storage.len() {
+                    assert!(!is_default(&routes.storage[k]), "inv:routes_at_most_one_default");
+                }
+                kani::cover!(had && n == 2, "default replaced in a full table");
+                kani::cover!(o0 && r0.cidr.prefix_len() > 0 && got == Some(r0.via_router), "more specific route wins over the default");
+            }
+        }
+        kani::cover!(res.is_err(), "table full, refused");
+        // removing: returns it, afterwards there is none
+        let removed = match gw {
+            #[cfg(feature = "proto-ipv4")]
+            IpAddress::Ipv4(_) => routes.remove_default_ipv4_route(),
+            #[cfg(feature = "proto-ipv6")]
+            IpAddress::Ipv6(_) => routes.remove_default_ipv6_route(),
+        };
+        if res.is_ok() {
+            assert!(removed.is_some() && removed.unwrap().via_router == gw, "prop:c16_remove_returns_the_default_route");
+        }
+        let gone = match gw {
+            #[cfg(feature = "proto-ipv4")]
+            IpAddress::Ipv4(_) => routes.get_default_ipv4_route().is_none(),
+            #[cfg(feature = "proto-ipv6")]
+            IpAddress::Ipv6(_) => routes.get_default_ipv6_route().is_none(),
+        };
+        assert!(gone, "prop:c16_no_default_route_after_remove");
+        kani::cover!(removed.is_some() && routes.storage.len() == 1, "default removed, one route left");
+    }
+
+    // @harness props=C16 kind=mustfail cfg=KI4 tier=q to=600 mem=6 unwind=8 opts=nomem
+    #[kani::proof]
+    pub(crate) fn route_must_fail() {
+        let now = any_instant(0, T_MAX);
+        let r0 = any_route();
+        let r1 = any_route();
+        let mut routes = Routes::new();
+        routes.update(|v| {
+            v.push(r0).unwrap();
+            v.push(r1).unwrap();
+        });
+        let a = any_addr();
+        kani::assume(a.is_unicast());
+        // false: the FIRST matching route is not always the answer
+        if usable(&r0, &a, now) {
+            assert!(routes.lookup(&a, now) == Some(r0.via_router), "prop:deliberately_false_first_match_wins");
+        }
+    }
 }
